@@ -26,9 +26,64 @@ print(json.dumps(out))
 '''
 
 
+def check_roundtrip(ctx, cs):
+    """insert + remove in one direction under every knot range; directions with equal knot vectors share ONE list object"""
+    from geomdl import helpers, operations
+    from ..adapter import project, same_def
+    ctx.full = cs
+    sh, o = cs["sh"], cs["out"]
+    d, r = o["d"], o["r"]
+    tg = tags_of(sh) + ["roundtrip", "dir=" + "uv"[d - 1]]
+    small = {"deg": sh["deg"], "kv": sh["kv"], "rat": sh["rat"], "d": d, "u": o["u"], "r": r}
+    ctx.count(("roundtrip", shape_key(sh), d, r), sample={"op": "roundtrip", **small})
+    configs = [(["normalize_kv=True"], sh, o["mid"], o["u"], True, o["both"], o["oneleft"])]
+    for im in o["images"]:
+        configs.append((["normalize_kv=False", "a=%g" % float(fr(im["a"]))], im["shape"], im["mid"], im["u"], False, im["both"], im["oneleft"]))
+    site = "operations.insert_knot/remove_knot"
+    for ctag, s0, mid, u, norm, both, oneleft in configs:
+        for share in (False, True):
+            t2 = tg + ctag + (["shared_list"] if share else [])
+            try:
+                # removal from ONE direction of a surface refined in both (equal knot vectors, possibly one list object)
+                ob2 = build(both, normalize_kv=norm, share_kv=share)
+                prm, num = [None, None], [0, 0]
+                prm[d - 1], num[d - 1] = float(fr(u)), r
+                operations.remove_knot(ob2, prm, num)
+                bad = same_def(project(ob2), oneleft)
+                if bad:
+                    ctx.violate(site, t2 + ["remove_one_direction"], small, {"field": bad, "kv": [list(U) for U in ob2._knot_vector]})
+                    continue
+            except Exception as e:
+                ctx.violate(site, t2 + ["remove_one_direction", "raises"], small, {"exception": repr(e)[:200]})
+                continue
+            try:
+                obj = build(s0, normalize_kv=norm, share_kv=share)
+                prm, num = [None, None], [0, 0]
+                prm[d - 1], num[d - 1] = float(fr(u)), r
+                operations.insert_knot(obj, prm, num)
+                bad = same_def(project(obj), mid)
+                if bad:
+                    ctx.violate(site, t2 + ["after_insert"], small, {"field": bad})
+                    continue
+                operations.remove_knot(obj, prm, num)
+                bad = same_def(project(obj), s0)
+                if bad:
+                    ctx.violate(site, t2 + ["after_remove"], small, {"field": bad, "kv": [list(U) for U in obj._knot_vector]})
+                    continue
+                ref = build(s0, normalize_kv=norm)
+                obj.sample_size = 3
+                ref.sample_size = 3
+                if not close_seq([list(x) for x in obj.evalpts], [list(x) for x in ref.evalpts]):
+                    ctx.violate(site, t2 + ["evalpts"], small, {})
+            except Exception as e:
+                ctx.violate(site, t2 + ["raises"], small, {"exception": repr(e)[:200]})
+
+
 def check_case(ctx, cs):
     from geomdl import helpers, evaluators
     ctx.full = cs
+    if cs["out"]["op"] == "roundtrip":
+        return check_roundtrip(ctx, cs)
     sh, o = cs["sh"], cs["out"]
     pd = len(sh["deg"])
     tg = tags_of(sh)
@@ -83,6 +138,24 @@ def check_case(ctx, cs):
                     ctx.violate(site.replace("evaluate_single", "evaluate(start, stop)"), tg + ctag, small, {"got0": got_part[0], "expected0": ref_part[0]})
             except Exception as e:
                 ctx.violate(site.replace("evaluate_single", "evaluate(start, stop)"), tg + ctag + ["raises"], small, {"exception": repr(e)[:200]})
+        # a DEcreasing range (start > stop): the points are those of the single evaluations at the same parameters, in that order
+        if pd <= 2:
+            try:
+                ob = mk()
+                ob.sample_size = 3
+                if pd == 1:
+                    lo, hi = ob.domain
+                    ob.evaluate(start=hi, stop=lo)
+                    want = [ob.evaluate_single(t) for t in (hi, (hi + lo) / 2.0, lo)]
+                else:
+                    (lu, hu), (lv, hv) = ob.domain
+                    ob.evaluate(start_u=hu, stop_u=lu, start_v=hv, stop_v=lv)
+                    want = [ob.evaluate_single([a2, b2]) for a2 in (hu, (hu + lu) / 2.0, lu) for b2 in (hv, (hv + lv) / 2.0, lv)]
+                got_desc = [list(x) for x in ob.evalpts]
+                if not close_seq(got_desc, [list(x) for x in want]):
+                    ctx.violate(site.replace("evaluate_single", "evaluate(start > stop)"), tg + ctag, small, {"got0": got_desc[0], "expected0": list(want[0])})
+            except Exception as e:
+                ctx.violate(site.replace("evaluate_single", "evaluate(start > stop)"), tg + ctag + ["raises"], small, {"exception": repr(e)[:200]})
         # derivatives: default and alternative evaluator, scaled by a^-k on the raw range
         if not sh["rat"] and pd <= 2 and o["ders"]:
             for ename, ev in (("default", None), ("alternative", evaluators.CurveEvaluator2() if pd == 1 else evaluators.SurfaceEvaluator2())):
@@ -195,10 +268,10 @@ def run(ctx):
     ctx.theorems = THEOREMS
     kinds = {}
     for tag, cs in res.cases:
-        k = KIND[len(cs["sh"]["deg"])]
+        k = KIND[len(cs["sh"]["deg"])] if cs["out"]["op"] == "query" else "roundtrip"
         kinds[k] = kinds.get(k, 0) + 1
         check_case(ctx, cs)
-    if len(kinds) < 3:
+    if len(kinds) < 4:
         raise core.MachineryError("vacuous model: %s" % kinds)
     check_pools(ctx)
     check_cache_sizes(ctx)
